@@ -269,6 +269,67 @@ def check_resampling(env, acc):
             acc.tick("rejected_calls")
 
 
+def check_history(env, acc):
+    """Long-lived Reck / ErrorModel objects: (a) configuring one default-constructed Reck in place must not
+    leak into later Reck() objects; (b) BFS over {assign a distribution to a slot, map with a seed}: after every
+    history the mapping equals the one of a freshly built error model with the same distributions and seed."""
+    u = kernel.haar(3, env.seed + 43)
+    c = lw.Unitary(u.copy())
+    r0 = itf.Reck()
+    r0.error_model.loss = dists.Constant(0.3)
+    r0.error_model.bs_reflectivity = dists.Constant(0.4)
+    r0.error_model.phase_offset = dists.Constant(0.1)
+    r0.map(c)
+    acc.tick("executions"); acc.tick("transitions")
+    m = itf.Reck().map(c)
+    if m.U_full.shape != (3, 3) or np.abs(m.U - u).max() > 1e-8:
+        acc.violation("default_error_model_depends_on_history", {"scenario": "history_default", "seed": env.seed},
+                      {"max_err": float(np.abs(m.U[:3, :3] - u).max())})
+    if itf.ErrorModel().get_loss() != 0 or itf.ErrorModel().get_bs_reflectivity() != 0.5:
+        acc.violation("default_error_model_depends_on_history", {"scenario": "history_default_model", "seed": env.seed}, None)
+    opts = {"bs": dist_options("bs", env)[:3], "loss": [dist_options("loss", env)[i] for i in (0, 2, 3)],
+            "ph": dist_options("ph", env)}
+    alpha = [("set", slot, i) for slot in ("bs", "loss", "ph") for i in range(3)] + [("map", 0), ("map", 1)]
+    attr = {"bs": "bs_reflectivity", "loss": "loss", "ph": "phase_offset"}
+
+    def replay_hist(hist):
+        em = itf.ErrorModel()
+        r = itf.Reck(em)
+        cfg = {"bs": None, "loss": None, "ph": None}
+        for op in hist:
+            if op[0] == "set":
+                setattr(em, attr[op[1]], opts[op[1]][op[2]][1]())
+                cfg[op[1]] = op[2]
+            else:
+                r.map(c, seed=op[1])
+        return r, cfg
+
+    def fresh(cfg):
+        em = itf.ErrorModel()
+        for slot, i in cfg.items():
+            if i is not None:
+                setattr(em, attr[slot], opts[slot][i][1]())
+        return itf.Reck(em)
+
+    depth = 3
+    for d in range(1, depth + 1):
+        for hist in itertools.product(alpha, repeat=d):
+            if hist[-1][0] != "set" and d > 1 and all(h[0] == "map" for h in hist):
+                continue
+            r, cfg = replay_hist(hist)
+            for sd in (0, 5):
+                acc.tick("executions", 2); acc.tick("transitions")
+                a = spec_struct(r.map(c, seed=sd)._get_circuit_spec())
+                b = spec_struct(fresh(cfg).map(c, seed=sd)._get_circuit_spec())
+                if a != b:
+                    acc.violation("mapping_depends_on_error_model_history",
+                                  {"scenario": "history_error_model", "history": hist, "map_seed": sd, "seed": env.seed}, None)
+                    break
+            acc.state("emhist", tuple(sorted(cfg.items())), hist[-1])
+            if any(h[0] == "map" for h in hist[:-1]):
+                acc.nontriv("emhist", hist)
+
+
 def herald_layouts(n):
     lay = [()]
     if n >= 2:
@@ -317,6 +378,7 @@ def run(tier, seed):
     acc = kernel.pmap(shard_fn, kernel.interleave(jobs, kernel.NPROC * 2))
     e3 = kernel.Acc()
     check_resampling(env, e3)
+    check_history(env, e3)
     acc.merge(e3)
     meta = {
         "rule": "default error model: every phased permutation matrix with phases in {1,-1,i} for n<=3 (and n=4: all "
@@ -341,7 +403,10 @@ def replay(w, acc):
     case = w["case"]
     env = Env(case.get("seed", 0))
     if "scenario" in case:
-        check_resampling(env, acc)
+        if str(case["scenario"]).startswith("history"):
+            check_history(env, acc)
+        else:
+            check_resampling(env, acc)
         return
     label = case["unitary"]
     lab = tuple(tuple(x) if isinstance(x, list) else x for x in label)
